@@ -854,7 +854,7 @@ def deque_targeted(rng, thorough):
     among them are the ones that empty one chain and leave 1, 2, 3.. elements in the other, whatever the split is.  The
     observers run in the dump of every version (harness dq-marks)."""
     out = []
-    sizes = (list(range(2, 11)) + [12, 16]) if not thorough else list(range(2, 31)) + [40, 64]
+    sizes = (list(range(2, 9)) + [10, 13]) if not thorough else list(range(2, 31)) + [40, 64]
     for n in sizes:
         for route in ("addb", "addf", "ofn", "tab", "mixed", "remb", "remf", "rev"):
             h = Hist(None, "deque")
@@ -1223,8 +1223,9 @@ def check_histories(ctx, d, exe, corpus_hist=()):
                     why = "answer of the last operation %s differs (history sliced to its dependencies)" % (sl[-1],)
         ce = hist_scheme(fam, cut)
         ctx.violation(sig, input=ce[:4000], expected=exp_s, observed=got_s, why=why, replay=hist_replay(ce, exp_s))
-    # the probe re-runs the histories on instrumented libraries: every 4th of the (repetitive) ra / deque histories is enough
-    cov_exprs = [e for i, ((f, _p), e) in enumerate(zip(items, exprs)) if f not in ("ra", "deque") or i % 4 == 0]
+    # the probe re-runs the histories on instrumented libraries: every 6th of the (repetitive) ra / deque histories and two
+    # thirds of the random / build histories of the other families (all corpus + targeted ones) are enough for a measurement
+    cov_exprs = [e for i, ((f, _p), e) in enumerate(zip(items, exprs)) if (f not in ("ra", "deque") and (i % 3 != 2 or i < 600)) or i % 6 == 0]
     t2 = _t.time()
     check_coverage(ctx, d, cov_exprs if not ctx.thorough else cov_exprs[::5], prelude)   # thorough: every 5th history
     ctx.note("coverage probe wall time: %.1f s" % (_t.time() - t2))
